@@ -787,3 +787,42 @@ Qed.
 Theorem inscription_updater_total : forall cfg c,
   c_first cfg = 0 -> chain_valid cfg 0 [] 0 c -> exists st, index_chain cfg 0 c empty_state = Ok st.
 Proof. intros cfg c HF0 HV. eapply index_chain_total; eauto. apply TS_empty. Qed.
+
+(* Non-vacuity: genesis, a funding block, and a block whose second transaction spends the funding coinbase,
+   reveals two inscriptions and pays a fee that the coinbase claims. *)
+Definition tot_env (off : N) : envelope := mkEnv 0 off false false false false false false None false [].
+Definition tot_chain : list block :=
+  [ [mkTx 1 [null_op] [mkOut 5000000000 false] []];
+    [mkTx 2 [null_op] [mkOut 5000000000 false] []];
+    [mkTx 3 [null_op] [mkOut 5000001000 false] [];
+     mkTx 4 [(2, 0)] [mkOut 1000 false; mkOut 4999998000 false] [tot_env 0; tot_env 1]] ].
+
+Ltac cb_block :=
+  cbn [block_valid]; eexists; eexists;
+  split; [cbn [txs_valid]; split; reflexivity|];
+  split; [split; [discriminate|reflexivity]|];
+  split; [discriminate|];
+  split; [vm_compute; discriminate|];
+  split; [reflexivity|]; split; [reflexivity|]; split; [vm_compute; discriminate|vm_compute; reflexivity].
+
+Example total_nonvacuous :
+  chain_valid (cfg_of 0 true) 0 [] 0 tot_chain /\
+  exists st, index_chain (cfg_of 0 true) 0 tot_chain empty_state = Ok st /\ next_seq_of (s_entries st) = 2.
+Proof.
+  split.
+  - unfold tot_chain. cbn [chain_valid].
+    eexists; eexists; split; [cb_block|].
+    eexists; eexists; split; [cb_block|].
+    eexists; eexists; split; [|exact I].
+    cbn [block_valid]; eexists; eexists.
+    split.
+    { cbn [txs_valid]. eexists; eexists; eexists. split; [|split; [split; reflexivity|reflexivity]].
+      unfold tx_valid. split; [discriminate|]. split; [reflexivity|]. split.
+      - intros i v Hi Hr. destruct i as [|[|[|i]]]; cbn in Hi; inv Hi; [reflexivity|discriminate Hr].
+      - eexists; eexists. split; [vm_compute; reflexivity|]. split; [vm_compute; discriminate|]. split; reflexivity. }
+    split; [split; [discriminate|reflexivity]|].
+    split; [discriminate|].
+    split; [vm_compute; discriminate|].
+    split; [reflexivity|]. split; [reflexivity|]. split; [vm_compute; discriminate|vm_compute; reflexivity].
+  - eexists. split; [vm_compute; reflexivity|]. reflexivity.
+Qed.
